@@ -27,8 +27,8 @@ def dedupKeep : List Cand → List Cand
   | [] => []
   | x :: xs => x :: (dedupKeep xs).filter (fun y => y != x)
 
-/-- the comparison `n_votes > threshold or accept_equal and n_votes == threshold` as used (hand-written) by the
-    open-list jump condition (openlist.py L122-127) and by QuotaSelector; the two threshold classes use the
+/-- the comparison `n_votes > threshold or accept_equal and n_votes == threshold` as used (hand-written) by QuotaSelector
+    (VotelibModel/Simple.lean writes it out); the two threshold classes and the open-list jump condition use the
     conditions generated from their source instead -/
 def passes (eq : Bool) (t v : Rat) : Bool := decide (t < v) || (eq && decide (v = t))
 
